@@ -185,7 +185,8 @@ def identify(string) -> str:
         if string.startswith("<?"):
             return "processing_instruction"
         if string.startswith("</"):
-            return "end_tag"
+            # (without a name it is text, like a left angle bracket)
+            return "end_tag" if len(string) > 2 else "error"
         if string.endswith("/>"):
             return "empty_tag"
         if string.endswith(">"):
